@@ -36,7 +36,7 @@ Proof.
         -- destruct I as [ND K]. split; cbn [order values]; [now rewrite <- O|]. rewrite setv_keys by exact M. now rewrite K, O.
         -- intros _. cbn [values]. apply mem_setv.
     + destruct (cut_colon [] l) as [[k v]|]; [|discriminate].
-      destruct (starts hash (trim_space k)); [discriminate|].
+      destruct (starts hash (trim_space k) || starts dashc (trim_space k)); [discriminate|].
       destruct (mem (trim_space k) (values p)) eqn:M; [discriminate|].
       eapply IH; [| |exact H].
       * destruct I as [ND K]. split; cbn [order values].
